@@ -634,6 +634,41 @@ func c17RaceCase(t *core.T, rounds int) {
 		return
 	}
 	ids := []string{wd.Keys[0].ID, wd.Keys[1].ID}
+	// wallets that exist as mnemonics only and are paid by the chain before they are imported: their
+	// import has history to record while blocks keep arriving
+	type later struct{ mn, pass string }
+	var laters []later
+	for len(laters) < rounds/7+1 {
+		mn, err := keystore.NewMnemonic(t.R.Bytes(16))
+		if err != nil {
+			t.Fatalf("mnemonic: %v", err)
+		}
+		ref, err := refWalletFrom(mn, "c17pass")
+		if err != nil || ref.ShortRisk {
+			continue
+		}
+		kb := &sim.WalletKeys{ID: ref.ID(), Pass: "c17pass", Mnemonic: mn, Owned: map[[32]byte]bool{}, Staking: map[[32]byte]bool{}}
+		for i := uint32(0); i < 2; i++ {
+			if std, _, h, ok := ref.Address(i); ok {
+				kb.Std = append(kb.Std, std)
+				kb.Hashes = append(kb.Hashes, h)
+				kb.Owned[h] = true
+			}
+		}
+		wd.Keys = append(wd.Keys, kb)
+		laters = append(laters, later{mn, "c17pass"})
+	}
+	for i := 0; i < 6; i++ {
+		b, err := wd.Extend(t.R.Range(2, 4))
+		if err != nil {
+			t.Fatalf("extend: %v", err)
+		}
+		wd.W.Deliver(b)
+	}
+	if !wd.Settle() {
+		t.Inconclusive("handler not idle")
+		return
+	}
 	passes := []string{wd.Keys[0].Pass, wd.Keys[1].Pass}
 	stop := make(chan struct{})
 	var wg sync.WaitGroup
@@ -688,10 +723,17 @@ func c17RaceCase(t *core.T, rounds int) {
 	for i := 0; i < rounds && !t.Failed(); i++ {
 		switch {
 		case i%7 == 3:
-			mn, err := keystore.NewMnemonic(t.R.Bytes(16))
-			if err == nil {
-				if sum, err := W.ImportWalletWithMnemonic(&keystore.WalletParams{Mnemonic: mn, PrivatePassphrase: []byte("c17pass"), Remarks: "r", AddressGapLimit: 20}); err == nil {
+			if len(laters) > 0 {
+				l := laters[0]
+				laters = laters[1:]
+				if sum, err := W.ImportWalletWithMnemonic(&keystore.WalletParams{Mnemonic: l.mn, PrivatePassphrase: []byte(l.pass), Remarks: "r", AddressGapLimit: 20}); err == nil {
 					extra = append(extra, sum.WalletID)
+				}
+				// tips arrive while the import runs
+				for j := 0; j < 2; j++ {
+					if b, err := wd.Extend(t.R.Range(1, 2)); err == nil {
+						wd.W.Deliver(b)
+					}
 				}
 			}
 		case i%7 == 6 && len(extra) > 0:
